@@ -127,3 +127,15 @@ def repo_corpus(repo="/repo"):
             out.setdefault(s, os.path.relpath(p, repo))
     _CORPUS = list(out)
     return _CORPUS
+
+
+EMPH = ["*", "**", "_", "__", "a", " "]
+
+
+def d_emph(n):
+    """inline delimiter-run documents: sequences of <= n symbols over {*, **, _, __, a, space}"""
+    for m in range(1, n + 1):
+        for cs in itertools.product(EMPH, repeat=m):
+            s = "".join(cs)
+            if s.strip():
+                yield s
